@@ -89,8 +89,15 @@ def load_die(emb, mregs, dw, dh):
         if hist:
             net.assign_rectangles(target)
             net.get_module("Fx").is_fixed = False
+        twice = False
         if form <= 4:
             arg = ddict
+            if form in (1, 4):      # a tree built by a program: numpy scalars as coordinates (they are numbers)
+                import numpy as np
+                arg = {"width": np.float64(ddict["width"]), "height": np.float64(ddict["height"])}
+                if "regions" in ddict:
+                    arg["regions"] = [[np.float64(v) for v in r[:4]] + [r[4]] for r in ddict["regions"]]
+            twice = form in (2, 4)  # the same description object serves two dies (bare, then with the netlist): the second counts
         elif form == 9 and "regions" not in ddict:
             arg = f"{ddict['width']!r}x{ddict['height']!r}"
         else:
@@ -104,6 +111,12 @@ def load_die(emb, mregs, dw, dh):
                 with open(arg, "w") as f:
                     f.write(text + "\n")
         try:
+            if twice:
+                try:
+                    Die(arg)
+                except Exception:
+                    pass            # (a description whose fixed part makes it invalid on its own, ...): only the second use is judged
+                Rectangle.undefine_epsilon()
             die = Die(arg, net)
         finally:
             if tmpdir:
